@@ -32,8 +32,9 @@ def make(args):
             ident[i] = int(m.group(2))
         pc = []
         for c in prof.cycles:
+            # (a locker that is not a known transaction -- e.g. None -- is recorded as 0 and judged by TLC)
             pc.append({"running": [[ident[i], ident[j] if j is not None else 0] for i, j in c.running.items()],
-                       "locked": [[ident[i], ident[j]] for i, j in c.locked.items()]})
+                       "locked": [[ident[i], ident.get(j, 0)] for i, j in c.locked.items()]})
         byname = {}
         for node in prof.analyze_transactions():
             m = re.search(r"t(\d+)$", node.stat.name)
